@@ -63,8 +63,32 @@ def build(ctx, tier="quick", positions=("column", "table")):
     sep = s.new()
     s.edge(O, P[","], Tag("sep", True), sep)
     s.eps(sep, lp)
+    if "column" in positions:
+        # ... and inside a table-level key list: , PRIMARY KEY ( <kw> ) / , UNIQUE ( <kw> , a )
+        D = s.new()
+        for kind, head, two in (("decl:PK", [("KW", "PRIMARY"), ("KW", "KEY")], False), ("decl:UQ", [("KW", "UNIQUE")], True)):
+            e = s.words(sep, kind, head)
+            x = s.edge(e, P["("], Tag(kind, False))
+            y = s.new()
+            for k in kws:
+                if k in EXCLUDED_COLUMN:
+                    continue
+                for case in ("upper", "other"):
+                    try:
+                        w = lm.kw(k, case)
+                    except Exception:
+                        continue
+                    s.e[x].append((w, Tag(kind, False, "col1"), y))
+            if two:
+                y = s.edge(y, P[","], Tag(kind, False))
+                y = s.edge(y, plain_col, Tag(kind, False, "col2"))
+            s.edge(y, P[")"], Tag(kind, False), D)
+        end0 = s.new()
+        s.edge(D, P[","], Tag("sep", True), sep)
     end = s.new()
     s.edge(O, P[")"], Tag("end", True), end)
+    if "column" in positions:
+        s.edge(D, P[")"], Tag("end", True), end)
     s.acc.add(end)
     s.n_keywords = len(kws)
     return s, T.make_oracle(s)
